@@ -378,6 +378,9 @@ def _strategy_base():
                        for o in store.orders.get_orders(self.exchange, self.symbol) if o.is_active]
                 TRACE.append(('after-state', self.symbol, now(), self.index, self.position.qty, act, decl))
             self._log('after', decl)
+            if isinstance(self.spec.get('raise'), dict) and self.spec['raise'].get('after_at') == self.index:
+                # fails in the step that queued a market order, before the framework executes it
+                raise RuntimeError('scripted failure')
 
         # -- decisions
         def _wants_entry(self):
